@@ -16,7 +16,7 @@ import (
 func profileFor(prop string) (Profile, []Monitor) {
 	switch prop {
 	case "C01":
-		return Profile{Hostile: true}, []Monitor{&chipsMon{}}
+		return Profile{Hostile: true, Probes: 2}, []Monitor{&chipsMon{}}
 	case "C02":
 		return Profile{ThemedDecks: true, Showdown: true, SmallStacks: true}, []Monitor{&settleMon{}}
 	case "C04":
@@ -30,13 +30,13 @@ func profileFor(prop string) (Profile, []Monitor) {
 	case "C10":
 		return Profile{ThemedDecks: true, Showdown: true}, []Monitor{&bestMon{}}
 	case "C11":
-		return Profile{SmallStacks: true}, []Monitor{&offerMon{}}
+		return Profile{SmallStacks: true, Probes: 1}, []Monitor{&offerMon{}}
 	case "C12":
-		return Profile{Hostile: true, SmallStacks: true}, []Monitor{&raiseMon{}}
+		return Profile{Hostile: true, SmallStacks: true, Probes: 1}, []Monitor{&raiseMon{}}
 	case "C13":
 		return Profile{SmallStacks: true}, []Monitor{&forcedMon{}}
 	case "C14":
-		return Profile{}, []Monitor{&dealMon{}}
+		return Profile{Probes: 1}, []Monitor{&dealMon{}}
 	case "C15":
 		every := 3
 		if vlib.Thorough() {
@@ -44,7 +44,7 @@ func profileFor(prop string) (Profile, []Monitor) {
 		}
 		return Profile{}, []Monitor{&viewMon{every: every}}
 	case "C16":
-		return Profile{SmallStacks: true}, []Monitor{&potsMon{}}
+		return Profile{SmallStacks: true, Probes: 1}, []Monitor{&potsMon{}}
 	}
 	return Profile{}, nil
 }
@@ -266,7 +266,7 @@ func TestReplay(t *testing.T) {
 		var c twoCase
 		json.Unmarshal(r.Case, &c)
 		for i := 0; i < 5 && v == nil; i++ { // the shuffle at Start() is time-seeded
-			v = replayTwo(&c)
+			v = replayTwo(&c, r.Property)
 		}
 	case "shuffle":
 		var c shuffleCase
